@@ -3,7 +3,7 @@ From Coq Require Import ZArith List.
 Import ListNotations.
 From V Require Import Valid.Hier Valid.Walk Valid.FlatRegion Valid.Run.
 From Coq Require Import Lia.
-From V Require Import Model.Pipe Model.PipeBounded Model.PipeBounded4 Model.Graph Model.Edits Model.Edits2 Model.JoinPath Model.Refine Model.CbPath Model.LoopEdit Model.LoopSpec Model.LoopPath Model.LoopPath2 Model.TableSpec.
+From V Require Import Model.Pipe Model.PipeBounded Model.PipeBounded4 Model.Graph Model.Edits Model.Edits2 Model.JoinPath Model.Refine Model.CbPath Model.LoopEdit Model.LoopSpec Model.LoopPath Model.LoopPath2 Model.TableSpec Model.Extract Model.CbHier Model.CbHierPath.
 
 Theorem C06_checker_sound : forall h, c06_check h = true -> CtrlSafe h.
 Proof. exact c06_check_sound. Qed.
@@ -175,3 +175,27 @@ Theorem C06_table_rewrite_keeps_tables_ok :
     table_ok_for tbl all_old -> table_ok_for res new_jt.
 Proof. exact table_rewrite_keeps_ok. Qed.
 Print Assumptions C06_table_rewrite_keeps_tables_ok.
+
+(* header unification at any level, with any kind of predecessor, in the strict reading *)
+Theorem C06_header_unification_any_level_ctrl_safe :
+  forall h lvl new var preds Ss names h',
+    insert_cb_h h lvl new var preds Ss names = XOk h' ->
+    (exists rank : name -> nat, forall x n, find h x = Some n -> (rank (n_parent n) < rank x)%nat) ->
+    (exists nl0, find h lvl = Some nl0 /\ is_region nl0 = true) ->
+    (forall p, In p preds -> p <> lvl /\ exists n0, find h p = Some n0 /\ n_parent n0 = lvl) ->
+    (NoDup names /\ forall a, In a names -> find h a = None /\ ~ In a Ss /\ a <> new) ->
+    find h new = None ->
+    (forall x n, find h x = Some n -> is_region n = false ->
+       NoDup (n_jt n) /\ (forall a, In a names -> ~ In a (n_jt n)) /\
+       (forall c v tbl, n_kind n = KBranch c v tbl -> NoDup (map fst tbl) /\ v <> var) /\
+       (forall a, n_kind n = KAssign a -> forall p, In p a -> fst p <> var)) ->
+    (forall x n t, find h x = Some n -> is_region n = false -> In t (n_jt n) -> enter_flat h (S (length h)) t <> None) ->
+    (forall s, In s Ss -> enter_flat h (S (length h)) s <> None) ->
+    forall n e e' ds,
+      (exists b p, find h n = Some b /\ n_kind b = KOrig p) ->
+      E (Fc var) e e' ->
+      CTrace h (resolve_flat h) true n e ds -> CTrace h' (resolve_flat h') true n e' ds.
+Proof.
+  intros h lvl new var preds Ss names h'. exact (insert_cb_h_keeps_ctrace h lvl new var preds Ss names h' true).
+Qed.
+Print Assumptions C06_header_unification_any_level_ctrl_safe.
